@@ -288,7 +288,7 @@ def add_dim(a, dim, val=0):
     """
     _a = np.asarray(a)
     for i, _ in enumerate(_a.shape):
-        _a = np.insert(_a, [dim], 0, axis=i)
+        _a = np.insert(_a, [dim], val, axis=i)
     return _a
 
 
